@@ -46,7 +46,13 @@ class FakeGlob:
         self.gw = gw
 
     def glob(self, pattern):
-        return [pattern.replace("*", "0")] if self.gw.present else []
+        if not self.gw.present:
+            # no device node: the attempt ends here (os.open is never reached)
+            self.gw.open_attempts.append((self.gw.sim.loop.time(), False))
+            return []
+        # the node may come back under another number
+        self.n = getattr(self, "n", 0) + 1
+        return [pattern.replace("*", str(self.n % 4))]
 
 
 class FakeOS:
@@ -196,7 +202,7 @@ class HidSim:
     """One simulation: a real hid driver object + gateway model + virtual loop."""
 
     def __init__(self, kind, initial_seq=1, present=True, reconnect_interval=1, reconnect_limit=None,
-                 exceptions_on_send=True, dev_inst_map=None):
+                 exceptions_on_send=True, dev_inst_map=None, glob=False):
         import dali.driver.hid as hidmod
         self.hidmod = hidmod
         self.kind = kind
@@ -211,7 +217,8 @@ class HidSim:
         hidmod.random = FakeRandom(initial_seq)
         hidmod.glob = FakeGlob(self.gw)
         cls = hidmod.tridonic if kind == "tridonic" else hidmod.hasseb
-        self.driver = cls("/dev/dali/fake-hidraw", reconnect_interval=reconnect_interval,
+        self.driver = cls("/dev/dali/fake-hidraw*" if glob else "/dev/dali/fake-hidraw", glob=glob,
+                          reconnect_interval=reconnect_interval,
                           reconnect_limit=reconnect_limit, dev_inst_map=dev_inst_map)
         self.driver.exceptions_on_send = exceptions_on_send
         self.latencies = []           # scripted unit draws in [0, 1), consumed in order; default 0.5
